@@ -198,6 +198,25 @@ async def run_script(job):
                     ev("sentwait", s=c["s"])
                 except Exception as e:
                     ev("sentwait", s=c["s"], err=type(e).__name__)
+            elif k == "cliwait":
+                # the bundled CLI client sends a command whose method waits for several seconds (until-closed; the application
+                # closes the pool after c["secs"]): the reply - and only the reply - must appear once the wait is over
+                cl = clients.get(c["s"])
+                if cl is None or cl.cli is None:
+                    continue
+                before = pobs(pool)
+                try:
+                    cl.cli.stdin.write(b"until-closed\n")
+                    await cl.cli.stdin.drain()
+                    await asyncio.sleep(c.get("secs", 6))
+                    pool.stop_all()
+                    await asyncio.wait_for(pool.gather_and_close(return_exceptions=True), BOUND)
+                    out = await read_until_prompt(cl.cli.stdout)
+                    body = (out[:-2] if out.endswith("> ") else out).strip("\n")
+                    ev("reply", s=c["s"], cls="await", got=out.endswith("> ") and len(out) > 3, text=out[:120], before=before,
+                       same=body == "True", line="until-closed (%ss)" % c.get("secs", 6))
+                except Exception as e:
+                    ev("reply", s=c["s"], cls="await", got=False, text=type(e).__name__, before=before, same=True, line="until-closed")
             elif k == "cmd":
                 cl = clients.get(c["s"])
                 line, exp = LINES.get(c["cls"], "num-running"), None
